@@ -195,6 +195,9 @@ def run_one(args):
     if res["fired"] != "-":
         res["status"] = "caught"
         return res
+    if os.environ.get("MS_NOTESTS"):
+        res["status"] = "silent"
+        return res
     # silent: does the crate's own suite notice?
     t0 = time.time()
     env2 = dict(os.environ, CARGO_TARGET_DIR=os.path.join(d, "ttarget"), CARGO_NET_OFFLINE="true", RUST_BACKTRACE="0")
@@ -275,6 +278,56 @@ def main():
                     print("SURVIVOR", r["file"], r["line"], r["op"], r["frm"], "->", r["to"], flush=True)
         for p in ps:
             p.join()
+        return
+    if cmd == "one":
+        # mutsweep.py one <file> <line> <op> [<frm> <to>] : evaluate matching mutants again with the rules as they are now (no tests)
+        ms = [json.loads(l) for l in open(mp)]
+        sel = [m for m in ms if m["file"].endswith(sys.argv[2]) and m["line"] == int(sys.argv[3]) and m["op"] == sys.argv[4] and
+               (len(sys.argv) < 7 or (m["frm"] == sys.argv[5] and m["to"] == sys.argv[6]))]
+        for m in sel:
+            os.environ["MS_NOTESTS"] = "1"
+            r = run_one((90, m))
+            print(m["file"], m["line"], m["op"], m["frm"], "->", m["to"], "|", r.get("status"), r.get("fired", ""))
+        return
+    if cmd == "resurvey":
+        # evaluate every survivor again with the rules as they are now (no tests); -> /var/tmp/ms/resurvey.jsonl
+        rs = [json.loads(l) for l in open(rp)]
+        ms = {json.loads(l)["id"]: json.loads(l) for l in open(mp)}
+        sv = [ms[r["id"]] for r in rs if r["status"] == "survivor"]
+        os.environ["MS_NOTESTS"] = "1"
+        jobs = int(sys.argv[sys.argv.index("--jobs") + 1]) if "--jobs" in sys.argv else 8
+        from multiprocessing import Process, Queue
+        q, outq = Queue(), Queue()
+        for m in sv:
+            q.put(m)
+        for _ in range(jobs):
+            q.put(None)
+
+        def loop(w):
+            while True:
+                m = q.get()
+                if m is None:
+                    break
+                try:
+                    outq.put(run_one((w + 50, m)))
+                except Exception as e:      # noqa: BLE001
+                    outq.put(dict(id=m["id"], status="error", err=str(e)[:200]))
+        ps = [Process(target=loop, args=(w,)) for w in range(jobs)]
+        for p in ps:
+            p.start()
+        with open(os.path.join(BASE, "resurvey.jsonl"), "w") as fh:
+            for i in range(len(sv)):
+                fh.write(json.dumps(outq.get()) + "\n")
+                fh.flush()
+        for p in ps:
+            p.join()
+        rr = [json.loads(l) for l in open(os.path.join(BASE, "resurvey.jsonl"))]
+        from collections import Counter
+        print(len(rr), dict(Counter(r["status"] for r in rr)))
+        for r in sorted(rr, key=lambda r: (r.get("file", ""), r.get("line", 0))):
+            if r["status"] == "silent":
+                src = open(os.path.join(REPO, r["file"])).read().split("\n")[r["line"] - 1].strip()
+                print("%s:%d %s %s -> %s | %s" % (r["file"], r["line"], r["op"], r["frm"], r["to"], src[:110]))
         return
     if cmd == "report":
         from collections import Counter
